@@ -1098,7 +1098,7 @@ func init() {
 				s.Sample(c)
 			}
 			if clause != "" {
-				s.Violate(engine.Violation{Sig: fmt.Sprintf("C10/%s/%s.%s/ns%d.split=%v.extras=%v.badfirst=%v", clause, c.Kind, c.Call, c.Style.NS, c.Split, c.Extras, c.BadFirst)+map[bool]string{true: fmt.Sprintf(".missing=%d", c.Missing)}[c.Missing != 0], Clause: clause, Index: base + int64(i), Kind: "C10-D", Case: c, Expected: "client returns the values the document holds", Observed: detail})
+				s.Violate(engine.Violation{Sig: fmt.Sprintf("C10/%s/%s.%s/ns%d.split=%v.extras=%v.badfirst=%v", clause, c.Kind, c.Call, c.Style.NS, c.Split, c.Extras, c.BadFirst) + map[bool]string{true: fmt.Sprintf(".missing=%d", c.Missing)}[c.Missing != 0], Clause: clause, Index: base + int64(i), Kind: "C10-D", Case: c, Expected: "client returns the values the document holds", Observed: detail})
 			}
 		})
 	})
